@@ -17,27 +17,44 @@ MODFILE="$VERIF/.bin/go.$$.mod"
 sed "s#=> /repo#=> $REPO#" go.mod > "$MODFILE"
 cp "$REPO/go.sum" "$VERIF/.bin/go.$$.sum" 2>/dev/null
 BIN="$VERIF/.bin/check.$$"
-if ! go build -modfile="$MODFILE" -tags verif -o "$BIN" ./cmd/check 2>"$VERIF/.bin/build.$$.log"; then
+OV="$VERIF/.bin/ov.$$"
+cleanup() { rm -rf "$BIN" "$BIN.sched" "$BIN.race" "$OV" "$MODFILE" "$VERIF/.bin/go.$$.sum" "$VERIF/.bin/build.$$.log"; }
+# The overlay (generated from /repo's current tree, nothing written to it) replaces
+# the library's "sync" import by the verifsync shim and inserts access probes. The
+# schedule explorer needs it; the other engines are built with it as well because
+# the shim's sync.Pool is the adversarial pool (memory is garbage while the pool
+# owns it), which makes use-after-Put deterministic in a single goroutine.
+rm -rf "$OV"; mkdir -p "$OV"
+OVERLAY=""
+if go run -modfile="$MODFILE" ./cmd/overlaygen -repo "$REPO" -rt "$VERIF/mc/schedrt" -out "$OV" . band backend/joinserver backend applayer/clocksync applayer/multicastsetup applayer/fragmentation applayer/firmwaremanagement airtime gps > "$OV/gen.log" 2>&1; then
+  OVERLAY="$OV/overlay.json"
+fi
+built=0
+if [ -n "$OVERLAY" ] && go build -modfile="$MODFILE" -tags verif -overlay "$OVERLAY" -o "$BIN" ./cmd/check 2>"$VERIF/.bin/build.$$.log"; then
+  built=1; export VERIF_OVERLAY=1
+elif go build -modfile="$MODFILE" -tags verif -o "$BIN" ./cmd/check 2>"$VERIF/.bin/build.$$.log"; then
+  # the tree builds but not under the overlay (a construct the shim does not cover):
+  # the enumerating engines still run, without the adversarial pool
+  built=1; export VERIF_OVERLAY=0; OVERLAY=""
+  echo "note: overlay build failed, running without the sync shim:"; tail -3 "$OV/gen.log" 2>/dev/null
+fi
+if [ $built = 0 ]; then
   cat "$VERIF/.bin/build.$$.log"
   echo "HARNESS-ERROR property=$PROP build of the checker against /repo failed"
-  rm -f "$BIN" "$VERIF/.bin/build.$$.log" "$MODFILE" "$VERIF/.bin/go.$$.sum"
+  cleanup
   exit 2
 fi
-rm -f "$VERIF/.bin/build.$$.log"
-# properties with a schedules quantifier: generate the overlay from /repo's current
-# tree, build the schedule explorer with it and run it first; its summary is
-# merged into the property's evidence by the main check
+# properties with a schedules quantifier: build the schedule explorer with the
+# overlay and run it first; its summary is merged into the property's evidence
+# by the main check
 SUMMARY=""
 case "$PROP" in
 C10|C16)
   case " $* " in *" -replay "*) ;; *)
-  OV="$VERIF/.bin/ov.$$"
-  rm -rf "$OV"; mkdir -p "$OV"
-  if ! go run -modfile="$MODFILE" ./cmd/overlaygen -repo "$REPO" -rt "$VERIF/mc/schedrt" -out "$OV" . band backend/joinserver backend applayer/clocksync applayer/multicastsetup applayer/fragmentation applayer/firmwaremanagement > "$OV/gen.log" 2>&1 \
-     || ! go build -modfile="$MODFILE" -tags "verif sched" -overlay "$OV/overlay.json" -o "$BIN.sched" ./cmd/schedcheck > "$OV/build.log" 2>&1; then
+  if [ -z "$OVERLAY" ] || ! go build -modfile="$MODFILE" -tags "verif sched" -overlay "$OVERLAY" -o "$BIN.sched" ./cmd/schedcheck > "$OV/build.log" 2>&1; then
     cat "$OV/gen.log" "$OV/build.log" 2>/dev/null
     echo "HARNESS-ERROR property=$PROP build of the schedule explorer (overlay) failed"
-    rm -rf "$OV" "$BIN" "$BIN.sched" "$MODFILE" "$VERIF/.bin/go.$$.sum"
+    cleanup
     exit 2
   fi
   "$BIN.sched" -property "$PROP" -tier "$TIER" -out "$OV/summary.json" -overlay-report "$OV/report.json"
@@ -46,7 +63,7 @@ C10|C16)
   # Go race detector (the cooperative scheduler's hand-offs blind it, so this is a
   # separate run; the deciding race oracle remains the vector-clock check)
   if [ "$TIER" = thorough ]; then
-    if go build -race -modfile="$MODFILE" -tags "verif sched" -overlay "$OV/overlay.json" -o "$BIN.race" ./cmd/schedcheck > "$OV/racebuild.log" 2>&1; then
+    if go build -race -modfile="$MODFILE" -tags "verif sched" -overlay "$OVERLAY" -o "$BIN.race" ./cmd/schedcheck > "$OV/racebuild.log" 2>&1; then
       GORACE="halt_on_error=1 exitcode=66" "$BIN.race" -property "$PROP" -freerun 400 > "$OV/race.log" 2>&1
       export VERIF_AUX_RACE_RC=$? VERIF_AUX_RACE_LOG="$OV/race.log"
       tail -1 "$OV/race.log"
@@ -61,5 +78,5 @@ esac
 cd "$VERIF" || exit 2
 VERIF_SCHED_SUMMARY="$SUMMARY" "$BIN" -property "$PROP" -tier "$TIER" "$@"
 rc=$?
-rm -rf "$BIN" "$BIN.sched" "$VERIF/.bin/ov.$$" "$MODFILE" "$VERIF/.bin/go.$$.sum"
+cleanup
 exit $rc
